@@ -10,6 +10,7 @@ import (
 	"runtime"
 	"slices"
 	"strings"
+	"sync"
 
 	"golang.org/x/tools/go/ssa"
 )
@@ -236,6 +237,10 @@ func (in *interp) visitInstr(fr *frame, instr ssa.Instruction) int {
 	case *ssa.Send:
 		panic(unsupported{"channel send"})
 	case *ssa.Store:
+		if sp, ok := fr.get(instr.Addr).(*symPtr); ok {
+			in.symStore(sp, fr.get(instr.Val))
+			break
+		}
 		addr := fr.get(instr.Addr).(*value)
 		if addr == nil {
 			panic(runtimePanic{"invalid memory address or nil pointer dereference"})
@@ -314,6 +319,10 @@ func (in *interp) visitInstr(fr *frame, instr ssa.Instruction) int {
 		idx := fr.get(instr.Index)
 		switch x := x.(type) {
 		case []value:
+			if s, ok := idx.(*Sym); ok && in.symPtrOK(instr, x) {
+				fr.env[instr] = &symPtr{cells: x, idx: s}
+				break
+			}
 			i := in.index(idx, len(x))
 			fr.env[instr] = &x[i]
 		case *value:
@@ -321,6 +330,10 @@ func (in *interp) visitInstr(fr *frame, instr ssa.Instruction) int {
 				panic(runtimePanic{"invalid memory address or nil pointer dereference"})
 			}
 			a := (*x).(array)
+			if s, ok := idx.(*Sym); ok && in.symPtrOK(instr, a) {
+				fr.env[instr] = &symPtr{cells: a, idx: s}
+				break
+			}
 			i := in.index(idx, len(a))
 			fr.env[instr] = &a[i]
 		default:
@@ -340,7 +353,6 @@ func (in *interp) visitInstr(fr *frame, instr ssa.Instruction) int {
 			fr.env[instr] = copyVal(x[in.index(idx, len(x))])
 		case string:
 			if s, ok := idx.(*Sym); ok && len(x) <= 256 {
-				in.boundsCheck(s, len(x))
 				el := make([]value, len(x))
 				for i := range el {
 					el[i] = x[i]
@@ -353,8 +365,7 @@ func (in *interp) visitInstr(fr *frame, instr ssa.Instruction) int {
 			fr.env[instr] = x[in.index(idx, len(x))]
 		case *SymStr:
 			n := strLen(in, x)
-			if s, ok := idx.(*Sym); ok {
-				in.boundsCheck(s, n)
+			if s, ok := idx.(*Sym); ok && !x.hasAtom() {
 				if v, ok := in.symSelect(x.E, s); ok {
 					fr.env[instr] = v
 					break
@@ -440,10 +451,11 @@ func (in *interp) index(idx value, n int) int {
 	return int(i)
 }
 
-// symSelect builds an ite-chain for elems[idx] when all elements are scalars
-// of one kind. The caller has already established idx in range.
+// symSelect returns elems[idx] for a symbolic idx as an ite chain over runs of equal
+// elements (run-length compressed: constant tables such as unicode.properties have few
+// runs). It performs the bounds check (forking on out-of-range).
 func (in *interp) symSelect(elems []value, idx *Sym) (value, bool) {
-	if len(elems) == 0 || len(elems) > 512 {
+	if len(elems) == 0 || len(elems) > 1024 {
 		return nil, false
 	}
 	k, ok := kindOfValue(elems[0])
@@ -456,18 +468,35 @@ func (in *interp) symSelect(elems []value, idx *Sym) (value, bool) {
 			return nil, false
 		}
 	}
+	in.boundsCheck(idx, len(elems))
 	w := kindWidth(idx.K)
-	// in-range check must already be on the path; build chain
-	in.boundsCheckOnce(idx, len(elems))
-	r := in.termOf(elems[len(elems)-1])
-	for i := len(elems) - 2; i >= 0; i-- {
-		r = in.tp.Ite(in.tp.Eq(idx.T, in.tp.BV(uint64(i), w)), in.termOf(elems[i]), r)
+	// runs of identical terms
+	type run struct {
+		last int
+		t    *Term
+	}
+	var runs []run
+	for i, e := range elems {
+		t := in.termOf(e)
+		if n := len(runs); n > 0 && runs[n-1].t == t {
+			runs[n-1].last = i
+		} else {
+			runs = append(runs, run{i, t})
+		}
+	}
+	r := runs[len(runs)-1].t
+	for i := len(runs) - 2; i >= 0; i-- {
+		var c *Term
+		if runs[i].last == 0 || (i > 0 && runs[i-1].last+1 == runs[i].last) {
+			c = in.tp.Eq(idx.T, in.tp.BV(uint64(runs[i].last), w))
+		} else if kindSigned(idx.K) {
+			c = in.tp.bvCmp(OpBVSle, idx.T, in.tp.BV(uint64(runs[i].last), w))
+		} else {
+			c = in.tp.bvCmp(OpBVUle, idx.T, in.tp.BV(uint64(runs[i].last), w))
+		}
+		r = in.tp.Ite(c, runs[i].t, r)
 	}
 	return in.mk(k, r), true
-}
-
-func (in *interp) boundsCheckOnce(idx *Sym, n int) {
-	in.boundsCheck(idx, n) // decide() is cheap when already implied
 }
 
 func (in *interp) slice(x, lo, hi, max value) value {
@@ -956,4 +985,82 @@ func (in *interp) stackTrace() []string {
 		out = append(out, fr.fn.String()+pos)
 	}
 	return out
+}
+
+// symPtr is the address of cells[idx] for a symbolic idx (in range on this path).
+// It only flows into loads and stores (checked statically by symPtrOK).
+type symPtr struct {
+	cells []value
+	idx   *Sym
+}
+
+var symPtrCache sync.Map // *ssa.IndexAddr -> bool
+
+// symPtrOK reports whether a symbolic index at this IndexAddr can be kept symbolic:
+// every use of the address is a load or a store, and all cells are scalars of one kind.
+func (in *interp) symPtrOK(instr *ssa.IndexAddr, cells []value) bool {
+	if len(cells) == 0 || len(cells) > 1024 {
+		return false
+	}
+	ok, cached := symPtrCache.Load(instr)
+	if !cached {
+		good := true
+		if refs := instr.Referrers(); refs != nil {
+			for _, r := range *refs {
+				switch u := r.(type) {
+				case *ssa.UnOp:
+					if u.Op != token.MUL {
+						good = false
+					}
+				case *ssa.Store:
+					if u.Addr != ssa.Value(instr) {
+						good = false
+					}
+				case *ssa.DebugRef:
+				default:
+					good = false
+				}
+			}
+		} else {
+			good = false
+		}
+		symPtrCache.Store(instr, good)
+		ok = good
+	}
+	if !ok.(bool) {
+		return false
+	}
+	k, isScalar := kindOfValue(cells[0])
+	if !isScalar {
+		return false
+	}
+	for _, c := range cells {
+		k2, ok2 := kindOfValue(c)
+		if !ok2 || k2 != k {
+			return false
+		}
+	}
+	return true
+}
+
+func (in *interp) symStore(sp *symPtr, v value) {
+	k, ok := kindOfValue(v)
+	if !ok {
+		panic(unsupported{"store of a non-scalar through a symbolic index"})
+	}
+	if in.frozen != nil {
+		for i := range sp.cells {
+			if in.frozen[&sp.cells[i]] {
+				in.freezeEv = append(in.freezeEv, "store into frozen memory through a symbolic index")
+				break
+			}
+		}
+	}
+	in.boundsCheck(sp.idx, len(sp.cells))
+	w := kindWidth(sp.idx.K)
+	vt := in.termOf(v)
+	for i := range sp.cells {
+		c := in.tp.Eq(sp.idx.T, in.tp.BV(uint64(i), w))
+		sp.cells[i] = in.mk(k, in.tp.Ite(c, vt, in.termOf(sp.cells[i])))
+	}
 }
